@@ -14,6 +14,8 @@ CLAIMS = {
 }
 CLAIMS["C06"] = ("partial, strong: shadow isolation of all update/undo calls during a reload, crosswise exchange of all root state inside one critical section of both write locks, readers locked for the whole query, copy skips exactly the reloading socket and fills only the private table, interprocedural lock order (callback-aware) live-before-shadow; equality of the new data set with the cache's set and behaviour inside user callbacks are not decided",
     "path-sensitive dataflow per is_resetting cell, straight-line content simulation of the swaps, lockset, interprocedural lock-order graph")
+CLAIMS["C05"] = ("partial, strong: byte-level provenance of both query PDUs against the RFC layout, the Cache Response verdict is consumed before any payload (all paths), full decision table of the session handler, End-of-Data session mismatch reaches no table update on any path, reset-vs-serial choice extracted from the state machine, write discipline of session/serial/request flag over the whole program; serial arithmetic does not exist in the code and user transports are opaque",
+    "value-flow provenance of struct stores, path-sensitive effect counting with forked call results, FSM arm extraction, who-writes over all units")
 NA = {}
 def main():
     props = [json.loads(l) for l in open(os.path.join(HERE, "properties.jsonl"))]
